@@ -169,12 +169,13 @@ fn scenario_free(rng: &mut Rng, events: &Events, long: bool) {
         Ok(())
     })));
     // `long`: one lifetime of a logger with hundreds of reconfigurations (generation counters, caches)
-    let nl = if long { 3 } else { 1 + rng.below(3) };
-    let nr = if long { 2 } else { 1 + rng.below(2) };
+    // (one logging and one reconfiguring thread: with more, the silent steps the validation has to infer multiply)
+    let nl = if long { 1 } else { 1 + rng.below(3) };
+    let nr = if long { 1 } else { 1 + rng.below(2) };
     let mut hs = vec![];
     for t in 1..=nl {
         let (sh, logger) = (sh.clone(), logger.clone());
-        let n = if long { 200 } else { 2 + rng.below(10) };
+        let n = if long { 400 } else { 2 + rng.below(10) };
         hs.push(std::thread::spawn(move || {
             for _ in 0..n {
                 log_one(&sh, &logger, t);
@@ -183,7 +184,7 @@ fn scenario_free(rng: &mut Rng, events: &Events, long: bool) {
     }
     for j in 0..nr {
         let (sh, h) = (sh.clone(), h.clone());
-        let n = if long { 170 } else { 1 + rng.below(4) };
+        let n = if long { 300 } else { 1 + rng.below(4) };
         hs.push(std::thread::spawn(move || {
             for _ in 0..n {
                 set_config_as(&sh, &h, Some(j + 1));
